@@ -47,6 +47,8 @@ func hPresent(files map[string]vr.File, name string, hdr []string, rows [][]stri
 	}
 	files[name] = f
 	files["zzz_unknown.txt"] = vr.File{Name: "zzz_unknown.txt", Header: []string{"a"}, Rows: [][]string{{"b"}}}
+	// an unsupported member in a sub-folder whose base name is that of the file under test (an empty stale copy)
+	files["old/"+name] = vr.File{Name: "old/" + name, Header: hdr}
 }
 
 func hArchiveAll(files map[string]vr.File) []byte {
@@ -56,6 +58,11 @@ func hArchiveAll(files map[string]vr.File) []byte {
 	}
 	for i := len(hFileOrder) - 1; i >= 0; i-- { // members in reverse of the parse order
 		if f, ok := files[hFileOrder[i]]; ok {
+			fs = append(fs, f)
+		}
+	}
+	for i := range hFileOrder { // sub-folder members last
+		if f, ok := files["old/"+hFileOrder[i]]; ok {
 			fs = append(fs, f)
 		}
 	}
